@@ -110,6 +110,15 @@ Theorem C19_buffer_after_destroy :
 Proof. exact buffer_done_lemma. Qed.
 Print Assumptions C19_buffer_after_destroy.
 
+(* the persistent_chunks gauge counts the files of the chunks the buffer still knows: in every reachable state, as
+   long as no unlink failed, persistent_chunks = files in the directory - files never recovered - files left behind
+   by chunks counted dropped *)
+Theorem C19_persistent_gauge :
+  forall cfg n0 evs s, forallb unlink_ok evs = true -> b_run cfg (b_init n0) evs = Some s ->
+  m_pchunks (b_m s) = b_nfiles s - (n0 - b_recovered s) - b_orphans s.
+Proof. exact persistent_gauge_lemma. Qed.
+Print Assumptions C19_persistent_gauge.
+
 (* boundary of the property, not a finding: "pending = 0 after Destroy" is false, the chunks saved at
    shutdown stay counted as pending (they are what "left on disk" means for chunks never handed out) *)
 Theorem C19_pending_zero_after_destroy_refuted :
